@@ -290,6 +290,49 @@ class Extractor:
         for m in find_code(item, mask, r'\bpub\s*\((?:crate|super|self|in [^)]*)\)(?=\s+(?!(?:const\s+)?(?:unsafe\s+)?fn\b))'):
             edits.append(Edit(m.start(), m.end(), 'pub', 'R1'))
 
+        # private fields of extracted structs are made `pub` (visibility has no run-time meaning; Verus
+        # otherwise treats the datatype as opaque in contracts of pub items and in axiom modules)
+        if path[-1].startswith('struct '):
+            sm = next(find_code(item, mask, r'\bstruct\s+\w+'), None)
+            if sm is not None:
+                ob_ = next_open_brace(item, mask, sm.end())
+                if ob_ >= 0:
+                    cb_ = match_brace(item, mask, ob_)
+                    depth_ = 0
+                    for fmatch in re.finditer(r'(?m)^([ \t]*)(?!pub\b)([A-Za-z_]\w*)\s*:', item[ob_ + 1:cb_]):
+                        pos_ = ob_ + 1 + fmatch.start(2)
+                        # only fields at depth 1 of the struct body
+                        d_ = 0
+                        for ch_i in range(ob_ + 1, pos_):
+                            if mask[ch_i]:
+                                if item[ch_i] in '{(<[':
+                                    d_ += 1
+                                elif item[ch_i] in '})>]':
+                                    d_ -= 1
+                        if d_ == 0 and mask[pos_]:
+                            edits.append(Edit(pos_, pos_, 'pub ', 'R1'))
+                else:
+                    # tuple struct: `struct S(T, U);`
+                    op_ = item.find('(', sm.end())
+                    if op_ >= 0:
+                        cp_ = match_brace(item, mask, op_)
+                        d_ = 0
+                        start_ = op_ + 1
+                        for ch_i in range(op_ + 1, cp_ + 1):
+                            if not mask[ch_i]:
+                                continue
+                            c_ = item[ch_i]
+                            if c_ in '(<[{':
+                                d_ += 1
+                            elif c_ in ')>]}' and ch_i != cp_:
+                                d_ -= 1
+                            if (c_ == ',' and d_ == 0) or ch_i == cp_:
+                                seg = item[start_:ch_i]
+                                if seg.strip() and not re.match(r'\s*pub\b', seg):
+                                    ws = len(seg) - len(seg.lstrip())
+                                    edits.append(Edit(start_ + ws, start_ + ws, 'pub ', 'R1'))
+                                start_ = ch_i + 1
+
         body_open = body_close = None
         if is_fn:
             fm = next(find_code(item, mask, r'\bfn\s+\w+'))
